@@ -194,15 +194,27 @@ def coq_sources():
     return sorted(res)
 
 
-def coq_make(targets, timeout=1500):
+COQ_WARN = "-notation-overridden,-deprecated-hint-without-locality,-deprecated-instance-without-locality,-ambiguous-paths"
+
+
+def coq_project():
+    """_CoqProject is generated: every .v under theories/ gen/ props/ extract/ (coqdep orders them)."""
+    lines = ["-Q theories Polar", "-Q gen PolarGen", "-Q props PolarProps", "-Q extract PolarExtract",
+             f"-arg -w -arg {COQ_WARN}"]
+    for p in coq_sources():
+        lines.append(os.path.relpath(p, COQ))
+    changed = write_if_changed(os.path.join(COQ, "_CoqProject"), "\n".join(lines) + "\n")
+    if changed or not os.path.exists(os.path.join(COQ, "Makefile")):
+        subprocess.run(["coq_makefile", "-f", "_CoqProject", "-o", "Makefile"], cwd=COQ,
+                       stdout=subprocess.DEVNULL, stderr=subprocess.DEVNULL, check=True)
+
+
+def coq_make(targets, timeout=1500, keep_going=False):
     """(re)build targets (paths relative to coq/, .vo).  Returns (ok, log)."""
     lk = _lock()
     try:
-        if (not os.path.exists(os.path.join(COQ, "Makefile"))
-                or os.path.getmtime(os.path.join(COQ, "Makefile")) < os.path.getmtime(os.path.join(COQ, "_CoqProject"))):
-            subprocess.run(["coq_makefile", "-f", "_CoqProject", "-o", "Makefile"], cwd=COQ,
-                           stdout=subprocess.DEVNULL, stderr=subprocess.DEVNULL, check=True)
-        cmd = ["timeout", str(timeout), "make", "-j16"] + list(targets)
+        coq_project()
+        cmd = ["timeout", str(timeout), "make", "-j16"] + (["-k"] if keep_going else []) + list(targets)
         r = subprocess.run(cmd, cwd=COQ, stdout=subprocess.PIPE, stderr=subprocess.STDOUT, text=True)
         return r.returncode == 0, r.stdout
     finally:
